@@ -269,4 +269,25 @@ PROPS["C20"] = {
     "level_note": "Constructor havocked in replicate; engine and z3 trusted.",
 }
 
+PROPS["C11"] = {
+    "contracts": ["contracts/C11_chaperone.py"],
+    "level": "other",
+    "extra": [{"name": "C11/bounded[schemas x instances x 18 corruptions x orders]", "kind": "bounded", "tiers": ("quick",), "cmd": ["/venv/bin/python", "native/c11_bounded.py"]},
+              {"name": "C11/bounded[... 1500 instances]", "kind": "bounded", "tiers": ("thorough",), "timeout": 3000, "cmd": ["/venv/bin/python", "native/c11_bounded.py", "--thorough"]}],
+    "assumptions": ["json.loads and schema.model_validate are deterministic partial externals (succeed iff json_ok(s) / mv#ok(schema,d)); 'instance of the schema that re-validates' "
+                    "is pydantic's assumed contract on model_validate's result",
+                    "re.findall / re.sub are deterministic total externals; _coerce_types(_tracked) and _extract_json are used as deterministic functions in the lenient proofs "
+                    "(their bodies — the coercion table — are covered by the bounded stand-in only)",
+                    "co-chaperone preprocessors and on_misfold do not raise; the per-strategy dispatcher is havocked in the cascade proof (arbitrary result or arbitrary Exception)",
+                    "agreement of fold and fold_enhanced: each pair _fold_X / _fold_X_enhanced is proved against the SAME per-step specification; the whole-run agreement "
+                    "(identical pattern order in both variants) is checked by the bounded stand-in"],
+    "trusted_base": ["pydantic", "json", "re"],
+    "explanation": "Deductive part: every _fold_* (plain and enhanced) — valid iff the respective JSON source parses and validates, and then the structure IS "
+                   "model_validate(json.loads(text)) for text = strip(raw) / a regex match / the repaired text / the coerced extraction; invalid => no structure and a trace; "
+                   "confidence bands (1.0 only STRICT); the cascades fold / fold_enhanced never raise for any dispatcher behaviour, return only valid attempts as valid, and "
+                   "zero confidence on failure. Bounded part: generated schemas, instances and 18 corruption operators incl. 50k-deep nesting, on the real code.",
+    "level_text": "Mixed proof + bounded (JSON/regex/pydantic semantics are external).",
+    "level_note": "Externals as deterministic partial functions; engine and z3 trusted.",
+}
+
 NOT_APPLICABLE = {}
